@@ -235,6 +235,15 @@ def gen_spec(rng, depth: int = 0, names: typing.Optional[list] = None) -> list:
     stateful train-only, ['L'] label transformer, ['B', spec, spec] branch, ['R', [names]] map-reduce."""
     names = names if names is not None else []
     out = []
+    if depth == 0 and MANY_ACTORS and rng.random() < 0.05:
+        # swarm: a long chain - more persistent actors (11-13) than anything a test builds (two-digit state positions)
+        for _ in range(rng.randint(11, 13)):
+            name = chr(ord('A') + len(names))
+            names.append(name)
+            out.append(['S', name])
+            if rng.random() < 0.2:
+                out.append(['M'])
+        return out
     if depth == 0 and SOURCE_TRANSFORMS and rng.random() < 0.3:
         # ['X', name]: a stateful mapper in the project's SOURCE transform (rendered into source.py, ahead of the
         # pipeline): persistent like any other, first in the order of states
@@ -264,6 +273,7 @@ def gen_spec(rng, depth: int = 0, names: typing.Optional[list] = None) -> list:
 
 
 SOURCE_TRANSFORMS = True
+MANY_ACTORS = True
 
 
 def spec_names(spec: list, kinds=('S', 'R')) -> list[str]:
